@@ -15,6 +15,11 @@
 package mod_redirect
 
 import (
+	"net/url"
+	"strings"
+)
+
+import (
 	"github.com/bfenetworks/bfe/bfe_basic"
 )
 
@@ -26,15 +31,24 @@ func ReqUrlSet(req *bfe_basic.Request, url string) {
 // ReqUrlFromQuery sets redirect url to value of given field in query
 // e.g., url "http://service?url=(.*)" => "$1",
 func ReqUrlFromQuery(req *bfe_basic.Request, key string) {
-	if req.Query == nil {
-		req.Query = req.HttpRequest.URL.Query()
+	// look the key up in the raw query ('&'-separated elements, decoded key), so that
+	// the result does not depend on how url.ParseQuery treats ';'
+	req.Redirect.Url = ""
+	for _, elem := range strings.Split(req.HttpRequest.URL.RawQuery, "&") {
+		i := strings.Index(elem, "=")
+		if i < 0 {
+			continue
+		}
+		if k, err := url.QueryUnescape(elem[:i]); err != nil || k != key {
+			continue
+		}
+		if v, err := url.QueryUnescape(elem[i+1:]); err == nil {
+			req.Redirect.Url = v
+		}
+		return
 	}
-
-	req.Redirect.Url = req.Query.Get(key)
 }
 
-// ReqUrlPrefixAdd specify redirect url by adding prefix to original uri(path+query)
-// e.g., url  "/(.*)" => "link$1",
 func ReqUrlPrefixAdd(req *bfe_basic.Request, prefix string) {
 	rawUrl := req.HttpRequest.URL
 	uri := rawUrl.RequestURI()
